@@ -14,6 +14,7 @@ Ties
      vm_compute and compared with Operation.point_array after the real reorient(); on every case the alignment order is
      checked against the real-valued sort key of the model, decided exactly (Proofs/C18_ExactAlign.v: rank_check_sound).
 """
+import hashlib
 import json
 import math
 import time
@@ -637,9 +638,21 @@ def run_reorient(points, observer, ceiling):
     np = _np()
     from classy_blocks.modify.reorient.viewpoint import ViewpointReorienter
     loft = cb.Loft(cb.Face([list(p) for p in points[:4]]), cb.Face([list(p) for p in points[4:]]))
+    reorienter = ViewpointReorienter(list(observer), list(ceiling))
+    # one reorienter serves many blocks: for a third of the inputs (chosen by the input itself, so that replays agree) the
+    # instance has already re-oriented another block - a cube on the far side of the observer - before it gets this one
+    if int(hashlib.sha1(json.dumps([points, observer, ceiling]).encode()).hexdigest()[:4], 16) % 3 == 0:
+        c = [sum(float(p[i]) for p in points) / 8 for i in range(3)]
+        w = [2 * float(observer[i]) - c[i] for i in range(3)]
+        cube = [[w[0] + dx, w[1] + dy, w[2] + dz] for (dx, dy, dz) in
+                [(-.5, -.5, -.5), (.5, -.5, -.5), (.5, .5, -.5), (-.5, .5, -.5), (-.5, -.5, .5), (.5, -.5, .5), (.5, .5, .5), (-.5, .5, .5)]]
+        try:
+            reorienter.reorient(cb.Loft(cb.Face(cube[:4]), cb.Face(cube[4:])))
+        except Exception:
+            pass
     with HullRecorder() as rec:
         try:
-            ViewpointReorienter(list(observer), list(ceiling)).reorient(loft)
+            reorienter.reorient(loft)
         except Exception as e:  # DegenerateGeometryError, IndexError, QhullError ...
             return None, type(e).__name__, rec.simplices
     out = [fl(p) for p in np.asarray(loft.point_array)]
